@@ -69,7 +69,7 @@ Section Hist.
     destruct (lookup st n) as [o|], (lookup st' n) as [o'|]; try contradiction; auto.
     destruct o, o'; simpl in L; try contradiction; try discriminate.
     all: try (right; right; match type of L with ?x = _ => exists x end;
-              split; [intros; discriminate | split; [reflexivity | rewrite L; reflexivity]]).
+              split; [intros; discriminate | split; [reflexivity | congruence]]).
     right; left. destruct L as [-> L]. eauto 6.
   Qed.
 
@@ -240,9 +240,8 @@ Section Hist.
       destruct o1; try (apply unbound_rel; auto).
       destruct (motif_part _ _ _ _ _ m which); [apply store_same | apply unbound_rel]; auto.
     - destruct (glue_load K file format protein) as [r|e|].
-      + destruct r; split; simpl; auto; try (apply unbind_rel; auto).
-        * apply obj_rel_refl.
-        * apply bind_rel; [apply unbind_rel; auto | simpl; auto].
+      + destruct r; split; simpl; auto; try (apply unbind_rel; auto);
+          try apply obj_rel_refl; try (apply bind_rel; [apply unbind_rel; auto | simpl; auto]).
       + split; simpl; auto. apply unbind_rel; auto.
       + split; simpl; auto. apply unbind_rel; auto.
     - slot H self a1 q1 q1' Ht1 o1 Ho1; try (apply unbound_rel; auto).
@@ -251,6 +250,34 @@ Section Hist.
       destruct (motif_part _ _ _ _ _ m which); [apply store_same | apply unbound_rel]; auto.
     - slot H self a1 q1 q1' Ht1 o1 Ho1; try (apply unbound_same; auto);
         (split; simpl; [auto | apply unbind_rel; auto]).
+    - apply store_same; auto.
+    - recv_store H self.
+    - (* copy *)
+      slot H self a1 q1 q1' Ht1 o1 Ho1; try (apply unbound_rel; auto).
+      + apply store_rel; auto. simpl. auto.
+      + apply store_same; auto.
+    - (* == *)
+      slot H self a1 q1 q1' Ht1 o1 Ho1.
+      + apply unbound_same; auto.
+      + destruct other as [ |b0|z0|bits0|cps0|bs0|l0|l0|kv0| |nq]; try (apply unbound_same; auto).
+        slot H nq a2 q2 q2' Ht2 o2 Ho2; apply unbound_same; auto.
+      + destruct other as [ |b0|z0|bits0|cps0|bs0|l0|l0|kv0| |nq];
+          try (destruct (glue_eq K o1 None); [apply done_rel | apply unbound_same]; auto).
+        slot H nq a2 q2 q2' Ht2 o2 Ho2.
+        * apply unbound_same; auto.
+        * assert (E : glue_eq K o1 (Some (OSeq _ _ _ _ _ a2 q2)) = glue_eq K o1 (Some (OSeq _ _ _ _ _ a2 q2'))).
+          { destruct o1; reflexivity. }
+          rewrite E. destruct (glue_eq K o1 _); [apply done_rel | apply unbound_same]; auto.
+        * destruct (glue_eq K o1 (Some o2)); [apply done_rel | apply unbound_same]; auto.
+    - recv_done H self.
+    - recv_store H self.
+    - apply store_same; auto.
+    - slot H file a1 q1 q1' Ht1 o1 Ho1; try (apply unbound_rel; auto).
+      destruct o1; try (apply unbound_rel; auto). apply store_same; auto.
+    - slot H self a1 q1 q1' Ht1 o1 Ho1; try (apply unbound_same; auto).
+      destruct o1; try (apply unbound_same; auto).
+      destruct (lazy_take K a id calls k) as [items calls']. split; simpl; auto.
+      apply bind_rel; [apply unbind_rel; auto | simpl; auto].
   Qed.
 
   Fixpoint steps_rel (l l' : list step) : Prop :=
